@@ -65,6 +65,8 @@ VARIANTS = [
     ('SUMIF/3short', '=SUMIF(A1:A{n},{c},B1:B2)', 'sum', False),
     ('SUMIF/3long', '=SUMIF(A1:A{n},{c},B1:B6)', 'sum', False),
     ('SUMIF/3wholecol', '=SUMIF(A1:A{n},{c},B:B)', 'sum', False),
+    # criteria range that does not start in row 1 against whole columns: the sum range is anchored at its first cell (B1)
+    ('SUMIF/3wholecol-shifted', '=SUMIF(A2:A{n},{c},B:B)', 'sum_shift', False),
     ('SUMIF/3lower', '=SUMIF(A1:A{n},{c},B2:B{p})', 'sum_lower1', False),
     ('SUMIF/3lowercorner', '=SUMIF(A1:A{n},{c},B3)', 'sum_lower2', False),
     ('SUMIF/3lowershort', '=SUMIF(A1:A{n},{c},E3:E4)', 'sum_e', False),
@@ -74,6 +76,11 @@ VARIANTS = [
     ('COUNTIFS/short2', '=COUNTIFS(A1:A{n},{c},C1:C{m},">5")', 'error', True),
     ('AVERAGEIFS/short', '=AVERAGEIFS(B1:B{m},A1:A{n},{c})', 'error', False),
     ('AVERAGEIFS/long2', '=AVERAGEIFS(B1:B{n},A1:A{n},{c},C1:C{p},">5")', 'error', True),
+    # the same number of rows but another number of columns: still a different size
+    ('SUMIFS/2d-target', '=SUMIFS(B1:C{n},A1:A{n},{c})', 'error', False),
+    ('COUNTIFS/2d-second', '=COUNTIFS(A1:A{n},{c},C1:D{n},">5")', 'error', True),
+    ('AVERAGEIFS/2d-target', '=AVERAGEIFS(B1:C{n},A1:A{n},{c})', 'error', False),
+    ('SUMIFS/2d-third', '=SUMIFS(B1:B{n},A1:A{n},{c},C1:C{n},">5",D1:E{n},"<>t")', 'error', True),
 ]
 
 
@@ -84,9 +91,10 @@ FORMS_TF = [
     ('gt_cell_date', '">"&L1', '>43861'), ('ne_cell_date', '"<>"&L1', '<>43861'), ('le_cell_date', '"<="&L1', '<=43861'),
     ('eq_cell_float17', '"="&O1', '=0.3'), ('ne_cell_float17', '"<>"&O1', '<>0.3'), ('lt_cell_intfloat', '"<"&M1', '<5'),
     ('eq_cell_num', '"="&F1', '=5'),
+    ('tilde_tilde', '"a~~b"', 'a~~b'), ('ne_tilde_tilde', '"<>a~~b"', '<>a~~b'), ('eq_tilde_q', '"=a~?b"', '=a~?b'), ('tilde_star_cell', '"="&P1', '=a~*b'),
 ]
-FIXED_TF = {'L1': DATE_CELL, 'O1': '=0.1+0.2', 'M1': '=10/2'}
-KINDS_TF = [43860, 43862, 0.3, 5, 'apple', None]
+FIXED_TF = {'L1': DATE_CELL, 'O1': '=0.1+0.2', 'M1': '=10/2', 'P1': 'a~*b'}
+KINDS_TF = [43860, 43862, 0.3, 5, 'apple', None, 'a~b', 'ab', 'a?b', 'a*b']
 
 
 def build(n, tf=False):
@@ -207,6 +215,9 @@ def expected(kind, second, vec, crit):
     if kind in ('sum_lower1', 'sum_lower2', 'sum_e'):
         col = {'sum_lower1': (TARGET + [1000, 2000])[1:], 'sum_lower2': (TARGET + [1000, 2000])[2:], 'sum_e': TARGET_E}[kind]
         return sum(col[i] for i in sel), sel
+    if kind == 'sum_shift':
+        sel = [i for i in range(1, n) if pred(vec[i])]
+        return sum(TARGET[i - 1] for i in sel), sel
     if kind == 'sumself':
         return sum(vec[i] for i in sel if is_num(vec[i])), sel
     if kind == 'sum2':
